@@ -5,12 +5,15 @@
 package snaps
 
 import (
+	stdcontext "context"
 	"crypto/sha256"
 	"encoding/binary"
 	"encoding/json"
+	"errors"
 	"flag"
 	"fmt"
 	"os"
+	"os/exec"
 	"path/filepath"
 	"runtime/debug"
 	"sort"
@@ -279,6 +282,11 @@ type prop[C any] struct {
 	known func(c C, err error) string
 	// weight scales -rapid.checks for this test (default 1).
 	weight float64
+	// fresh: one in `fresh` cases (chosen by the hash of the case) is checked a second time in a brand-new process of this
+	// test binary, where nothing ran before it (default 16 for generated search, 0 = never for enumerations; -1 = never).
+	// Package-level state that a change introduces (memo tables, "first call" flags, pools) is invisible to a harness that
+	// runs thousands of cases in one process: after the first case the state is always warm.
+	fresh int
 }
 
 func mustJSON(v any) []byte {
@@ -377,6 +385,14 @@ func (p prop[C]) run(t *testing.T) {
 	defer flag.Set("rapid.checks", base)
 	col.Requested += want
 
+	fresh := p.fresh
+	if fresh == 0 {
+		fresh = 16
+	}
+	if os.Getenv("VERIF_BB_SCN") != "" {
+		fresh = -1 // black-box cases are real processes already
+	}
+	spawned := 0
 	rapid.Check(t, func(rt *rapid.T) {
 		c := p.gen(rt)
 		cj := mustJSON(c)
@@ -387,7 +403,65 @@ func (p prop[C]) run(t *testing.T) {
 			writeReplay(p.property, test, p.knownOf(c, err), cj, err)
 			rt.Fatalf("%s: %v\ncase: %s", p.property, err, clip(string(cj)))
 		}
+		if fresh > 0 && spawned < maxFreshChildren && freshDue(cj, fresh) {
+			spawned++
+			col.bump("also_checked_in_a_fresh_process")
+			if err := freshProcessCheck(p.property, test, cj); err != nil {
+				err = fmt.Errorf("in a fresh process, where nothing ran before this case (the same case passes after other cases ran in the process): %w", err)
+				col.freeze()
+				writeReplay(p.property, test, p.knownOf(c, err), cj, err)
+				rt.Fatalf("%s: %v\ncase: %s", p.property, err, clip(string(cj)))
+			}
+		}
 	})
+}
+
+const maxFreshChildren = 25
+
+func freshDue(cj []byte, n int) bool {
+	h := sha256.Sum256(cj)
+	return int(binary.BigEndian.Uint32(h[:4])%uint32(n)) == 0
+}
+
+// freshProcessCheck runs the check of one case in a new process of this test binary (the replay path of the runner).
+// A child that cannot be started or does not finish in time makes the re-check inconclusive (nil), never a failure.
+func freshProcessCheck(property, test string, cj []byte) error {
+	if os.Getenv("VERIF_REPLAY") != "" || os.Getenv("VERIF_CHILD") != "" {
+		return nil
+	}
+	dir, err := os.MkdirTemp(os.Getenv("VERIF_SCRATCH"), "child")
+	if err != nil {
+		return nil
+	}
+	defer os.RemoveAll(dir)
+	rf := filepath.Join(dir, "case.json")
+	b, _ := json.Marshal(replayFile{Property: property, Test: test, Case: cj})
+	if os.WriteFile(rf, b, 0o644) != nil {
+		return nil
+	}
+	ctx, cancel := stdcontext.WithTimeout(stdcontext.Background(), 180*time.Second)
+	defer cancel()
+	cmd := exec.CommandContext(ctx, os.Args[0], "-test.run", "^"+test+"$", "-test.count=1", "-test.timeout=170s")
+	cmd.Env = append(os.Environ(), "VERIF_REPLAY="+rf, "VERIF_OUT="+dir, "VERIF_CHILD=1", "VERIF_CORPUS=")
+	out, runErr := cmd.CombinedOutput()
+	if runErr == nil {
+		return nil
+	}
+	if ctx.Err() != nil || strings.Contains(string(out), "test timed out") {
+		getCollector(property, test).bump("fresh_process_recheck_timed_out(inconclusive)")
+		return nil
+	}
+	files, _ := filepath.Glob(filepath.Join(dir, "fail.*.json"))
+	for _, f := range files {
+		var r replayFile
+		if raw, err := os.ReadFile(f); err == nil && json.Unmarshal(raw, &r) == nil && r.Error != "" {
+			return errors.New(r.Error)
+		}
+	}
+	if _, ok := runErr.(*exec.ExitError); !ok {
+		return nil // could not be started
+	}
+	return fmt.Errorf("the child process failed without a verdict: %v: %s", runErr, clip(string(out)))
 }
 
 func (p prop[C]) classifySafe(c C) ([]string, bool) {
@@ -415,6 +489,7 @@ func (p prop[C]) enumerate(t *testing.T, cases func(yield func(C) bool)) {
 		return
 	}
 	col.Exhaustive = true
+	spawned := 0
 	cases(func(c C) bool {
 		cj := mustJSON(c)
 		cls, nt := p.classifySafe(c)
@@ -426,6 +501,18 @@ func (p prop[C]) enumerate(t *testing.T, cases func(yield func(C) bool)) {
 			writeReplay(p.property, test, p.knownOf(c, err), cj, err)
 			t.Errorf("%s: %v\ncase: %s", p.property, err, clip(string(cj)))
 			return false
+		}
+		if p.fresh > 0 && spawned < maxFreshChildren && freshDue(cj, p.fresh) {
+			spawned++
+			col.bump("also_checked_in_a_fresh_process")
+			if err := freshProcessCheck(p.property, test, cj); err != nil {
+				err = fmt.Errorf("in a fresh process, where nothing ran before this case (the same case passes after other cases ran in the process): %w", err)
+				col.freeze()
+				col.Exhaustive = false
+				writeReplay(p.property, test, p.knownOf(c, err), cj, err)
+				t.Errorf("%s: %v\ncase: %s", p.property, err, clip(string(cj)))
+				return false
+			}
 		}
 		return true
 	})
